@@ -148,6 +148,43 @@ class KernelResult:
         return [o for o in self.obligations if o["verdict"] != "unsat"]
 
 
+def run_twin(k, tier, limit=None):
+    """the bounded twin runs the REAL function; it is executed in a forked child under a wall-clock limit so that a non-terminating function under test
+    cannot hang the check: a timeout is reported as a failing case (the real function did not return on the twin's inputs)"""
+    import multiprocessing as mp
+    limit = limit or (180 if tier == "quick" else 1800)
+    ctx = mp.get_context("fork")
+    rd, wr = ctx.Pipe(duplex=False)
+
+    def child():
+        try:
+            res = k.twin(tier)
+            wr.send(("ok", res))
+        except BaseException as e:  # noqa
+            wr.send(("err", f"{type(e).__name__}: {e}\n{traceback.format_exc()}"))
+        finally:
+            wr.close()
+
+    import gc
+    gc.collect()
+    gc.freeze()
+    pr = ctx.Process(target=child)
+    pr.start()
+    wr.close()
+    if rd.poll(limit):
+        try:
+            kind, payload = rd.recv()
+        except EOFError:
+            kind, payload = "err", "twin child died without a result"
+        pr.join(10)
+        if kind == "ok":
+            return payload
+        raise RuntimeError(payload)
+    pr.kill()
+    pr.join(10)
+    return 0, [{"detail": f"the real function did not return within {limit} s on the inputs of this kernel's bounded twin (non-termination or extreme slowdown of the code under test)"}]
+
+
 def run_kernel(k, tier="quick"):
     res = KernelResult(k)
     t0 = time.time()
@@ -229,7 +266,7 @@ def run_kernel(k, tier="quick"):
         return _fallback(k, res, tier)
     # even when everything is proved, the twin runs at its quick bound (guards against an unsound engine)
     try:
-        res.twin_evals, res.failures = k.twin(tier)
+        res.twin_evals, res.failures = run_twin(k, tier)
     except Exception as e:
         res.twin_error = f"{type(e).__name__}: {e}"
     return res
@@ -238,7 +275,7 @@ def run_kernel(k, tier="quick"):
 def _fallback(k, res, tier):
     """proof lost / undecided: consult the bounded twin at the thorough bound (DESIGN §2.2 'Refutation and lost proofs')"""
     try:
-        res.twin_evals, res.failures = k.twin("thorough")
+        res.twin_evals, res.failures = run_twin(k, "thorough", limit=300)
     except Exception as e:
         res.twin_error = f"{type(e).__name__}: {e}\n{traceback.format_exc()}"
     return res
